@@ -33,7 +33,7 @@ def bounds_text(tier):
     n, m = (2, 1) if tier == 'quick' else (3, 2)
     return (f'(seq) all sequences of {n} operations from a pool a:ca b:cb (ca, cb symbolic >= 1, third name never added) over '
             f'the alphabet add(name; amount) / reserve(one or two entries, both key orders, incl. the unknown name) / '
-            f'release-all(r) / release-partial(r, two entries in both orders) / merge(ri, rj); '
+            f'release-all(r) / release-partial(r, two entries in both orders) / release(r, {{}}) / merge(ri, rj); '
             f'(step) {m} such operation(s) (1 from the two-reservation prefixes) applied to every state reached by a prefix of 1-2 granted reservations with '
             f'symbolic holdings, optionally followed by a symbolic capacity reduction (also below usage); at most '
             f'{MAXRES} live reservations; all amounts symbolic ints in [-1e9, 1e9]')
@@ -43,6 +43,7 @@ def _alphabet(nres):
     ops = [['A', n] for n in NAMES] + [['R', i] for i in range(len(PAIRS))]
     for r in range(min(nres, 2)):
         ops.append(['F', r])
+        ops.append(['E', r])
         for pi in range(4):
             ops.append(['P', r, pi])
     if nres >= 2:
@@ -110,7 +111,7 @@ def jobs(tier):
 
 def required_goals(tier):
     return ['add_rejected', 'capacity_reduced', 'capacity_below_usage', 'reserve_raised', 'reserve_refused',
-            'reserve_granted', 'release_again', 'release_rejected', 'release_partial_ok', 'merged']
+            'reserve_granted', 'release_again', 'release_rejected', 'release_partial_ok', 'merged', 'release_empty_dict']
 
 
 def signature(failure):
@@ -272,6 +273,13 @@ def run(shape, args, ctx):
                     for n in NAMES:
                         ctx.require(after[0][n][0] == before[0][n][0] - hb.get(n, 0), 'release-all gave back != held', n)
                     ctx.require(after[1][op[1]] == {}, 'release-all left holdings')
+        elif kind == 'E':                                        # release of an empty dictionary: gives back nothing
+            if op[1] < len(res):
+                res[op[1]].release({})
+                ctx.goal('release_empty_dict')
+                after = _snapshot(ctx, rm, res)
+                with ctx.notrace():
+                    _same(ctx, before, after, 'release({}) changed something', 'empty partial release')
         elif kind == 'P':                                        # partial release, both key orders, odd entries
             if op[1] < len(res):
                 r = res[op[1]]
